@@ -324,7 +324,11 @@ impl TableBootstrapInner {
         let mut last_send_error = None;
         let mut count = 0;
 
-        for addr in router_addresses.iter().chain(self.starting_nodes.iter()) {
+        // A contact may be listed both as a router and as a starting node. Contact it only once,
+        // otherwise the same (address, transaction id) pair would get registered twice.
+        let contacts: HashSet<_> = router_addresses.union(&self.starting_nodes).collect();
+
+        for addr in contacts {
             // Throttle sending if there is too many initial contacts
             if count > PINGS_PER_BUCKET {
                 time::sleep(NODE_TIMEOUT.max(Self::nat_friendly_send_duration())).await;
